@@ -68,6 +68,9 @@ def gen_history(rng, case, maxlen):
                 m["grid"] = {"class": "Uniform"}
             ops.append(["method", m])
             c["method"] = m
+            if rng.random() < 0.5:
+                # the user goes on modifying the method object they passed: the OCP holds its own copy
+                ops.append(["poke_method"])
         elif r < 0.82:
             s = ["ipopt", {"ipopt.print_level": 0, "print_time": False, "ipopt.sb": "yes",
                            "ipopt.max_iter": rng.choice([1, 2, 3]), "ipopt.tol": rng.choice([1e-6, 1e-4])}]
@@ -174,7 +177,11 @@ def worker(args):
                 elif k == "add_objective":
                     ocp.add_objective(B.pex(op[1]))
                 elif k == "method":
-                    ocp.method(CS.make_method(op[1], rockit, case_final))
+                    last_meth = CS.make_method(op[1], rockit, case_final)
+                    ocp.method(last_meth)
+                elif k == "poke_method":
+                    last_meth.N += 2
+                    last_meth.M += 1
                 elif k == "solver":
                     ocp.solver(*op[1])
                 elif k == "set_T":
@@ -221,7 +228,7 @@ def model_flags(all_ops):
     cls = {"sample": "HQuery unit unit", "value": "HQuery unit unit", "jacobian": "HQuery unit unit", "solve": "HQuery unit unit",
            "set_value": "HUpd unit unit tt", "set_initial": "HUpd unit unit tt"}
     for ops in all_ops:
-        o = "[" + "; ".join(cls.get(op[0], "HEdit unit unit tt") for op in ops) + "]"
+        o = "[" + "; ".join(cls.get(op[0], "HEdit unit unit tt") for op in ops if op[0] != "poke_method") + "]"
         lines.append("Eval vm_compute in (flags_of %s).\n" % o)
     hdr = coqrun.HEADER + """From RV Require Import Mech.History.
 Definition st := hstep unit unit unit unit (fun s _ => s) (fun s _ => s) (fun s => s) (fun n _ => n).
@@ -276,9 +283,10 @@ def run_items(items, name, jobs=16):
                 d = [{"what": "rockit raised on a history whose final specification a fresh OCP might transcribe",
                       "error": r["error"], "trace": r.get("trace")}]
         else:
-            if [bool(x) for x in mf] != r["flags"]:
+            rflags = [f for f, op in zip(r["flags"], ops) if op[0] != "poke_method"]
+            if [bool(x) for x in mf] != rflags:
                 d = [{"what": "transcription flag after each operation differs from the lazy-cache automaton",
-                      "rockit": r["flags"], "model": [bool(x) for x in mf], "ops": [o[0] for o in ops]}]
+                      "rockit": rflags, "model": [bool(x) for x in mf], "ops": [o[0] for o in ops]}]
             if not d:
                 d = cmp_nlp(r["evolved"], r["fresh"], "NLP / start point / parameter values / solver of the evolved OCP differ from a freshly written OCP with the final specification")
             if not d:
